@@ -642,6 +642,108 @@ def emit_schema(st):
     return "\n".join(L)
 
 
+
+# ----------------------------------------------------------------------------------------------------------
+# 7. write-set report (C12): syntactic scan for stores to state that outlives a call
+# ----------------------------------------------------------------------------------------------------------
+
+MUTATORS = {"append", "extend", "insert", "remove", "pop", "clear", "sort", "reverse", "update", "add", "discard", "setdefault", "popitem", "__setitem__", "__delitem__"}
+SCANNED = ["lexical/fsm_machine.py", "lexical/fsm_operate.py", "lexical/fsm_operation_map.py", "lexical/fsm_memory.py", "lexical/fsm_status.py", "lexical/amt_node.py",
+           "common/scanner.py", "common/basic.py", "common/char_set.py", "common/name_set.py", "common/static.py", "core/parser.py", "core/node.py", "core/static.py",
+           "core/sql_type.py", "config.py", "errors.py", "plugins/mybaitis.py", "analyzer/base.py", "analyzer/node.py",
+           "analyzer/toolkit/all_level_standard_table.py", "analyzer/toolkit/current_level_column_analyzer.py", "analyzer/toolkit/current_level_sub_query.py",
+           "analyzer/toolkit/current_level_table_name_analyzer.py", "analyzer/toolkit/current_level_used_quote_columns.py",
+           "analyzer/data_linage/table_lineage.py", "analyzer/data_linage/table_lineage_analyzer.py", "analyzer/data_linage/table_lineage_storage.py"]
+
+
+def write_set_report():
+    """[(module, function, kind, detail)]: every place where code that runs during a call could write to state shared between calls"""
+    report = []
+    for rel in SCANNED:
+        path = os.path.join(REPO, "metasequoia_sql", rel)
+        if not os.path.exists(path):
+            report.append((rel, "-", "missing-module", ""))
+            continue
+        tree = ast.parse(open(path, encoding="utf-8").read())
+        module_names = set()
+        for n in tree.body:
+            if isinstance(n, (ast.Assign, ast.AnnAssign)):
+                for t in (n.targets if isinstance(n, ast.Assign) else [n.target]):
+                    if isinstance(t, ast.Name):
+                        module_names.add(t.id)
+            elif isinstance(n, (ast.Import, ast.ImportFrom)):
+                for a in n.names:
+                    module_names.add((a.asname or a.name).split(".")[0])
+            elif isinstance(n, ast.ClassDef):
+                module_names.add(n.name)
+        operate_classes = {n.name for n in tree.body if isinstance(n, ast.ClassDef) and any(isinstance(b, ast.Name) and b.id == "FSMOperate" for b in n.bases)}
+
+        def root_name(e):
+            while isinstance(e, (ast.Attribute, ast.Subscript)):
+                e = e.value
+            return e.id if isinstance(e, ast.Name) else None
+
+        def scan_function(fn, cls):
+            local = {a.arg for a in fn.args.args + fn.args.kwonlyargs} | ({fn.args.vararg.arg} if fn.args.vararg else set()) | ({fn.args.kwarg.arg} if fn.args.kwarg else set())
+            for d in fn.args.defaults + fn.args.kw_defaults:
+                if isinstance(d, (ast.List, ast.Dict, ast.Set)) or (isinstance(d, ast.Call) and isinstance(d.func, ast.Name) and d.func.id in ("list", "dict", "set")):
+                    report.append((rel, fn.name, "mutable-default", ast.unparse(d)))
+            for n in ast.walk(fn):
+                if isinstance(n, (ast.Assign, ast.AugAssign, ast.AnnAssign)):
+                    for t in (n.targets if isinstance(n, ast.Assign) else [n.target]):
+                        for tt in ast.walk(t):
+                            if isinstance(tt, ast.Name) and isinstance(tt.ctx, ast.Store):
+                                local.add(tt.id)
+                elif isinstance(n, (ast.For, ast.comprehension)):
+                    for tt in ast.walk(n.target):
+                        if isinstance(tt, ast.Name):
+                            local.add(tt.id)
+                elif isinstance(n, ast.With):
+                    for it in n.items:
+                        if it.optional_vars is not None:
+                            for tt in ast.walk(it.optional_vars):
+                                if isinstance(tt, ast.Name):
+                                    local.add(tt.id)
+                elif isinstance(n, ast.NamedExpr):
+                    local.add(n.target.id)
+            for n in ast.walk(fn):
+                if isinstance(n, (ast.Global, ast.Nonlocal)):
+                    report.append((rel, fn.name, "global-statement", ",".join(n.names)))
+                targets = []
+                if isinstance(n, ast.Assign): targets = n.targets
+                elif isinstance(n, (ast.AugAssign, ast.AnnAssign)): targets = [n.target]
+                elif isinstance(n, ast.Delete): targets = n.targets
+                for t in targets:
+                    if isinstance(t, (ast.Attribute, ast.Subscript)):
+                        r = root_name(t)
+                        if r in ("cls",) or (r in module_names and r not in local):
+                            report.append((rel, fn.name, "store-to-shared", ast.unparse(t)))
+                        if r == "self" and cls in operate_classes and fn.name != "__init__":
+                            report.append((rel, fn.name, "operation-object-store", ast.unparse(t)))
+                if isinstance(n, ast.Call) and isinstance(n.func, ast.Attribute) and n.func.attr in MUTATORS:
+                    r = root_name(n.func.value)
+                    if r in ("cls",) or (r in module_names and r not in local):
+                        report.append((rel, fn.name, "mutating-call-on-shared", ast.unparse(n.func)))
+                    if r == "self" and cls in operate_classes and fn.name != "__init__":
+                        report.append((rel, fn.name, "operation-object-store", ast.unparse(n.func)))
+        for n in tree.body:
+            if isinstance(n, ast.FunctionDef):
+                scan_function(n, None)
+            elif isinstance(n, ast.ClassDef):
+                for f in n.body:
+                    if isinstance(f, ast.FunctionDef):
+                        scan_function(f, n.name)
+    return sorted(set(report))
+
+
+def emit_writeset(report):
+    L = [HEADER, "namespace Gen", "", "/-- syntactic write-set report of the modelled modules: (module, function, kind, target); see tools/translate.py §7 -/",
+         "def writeSet : List (String × String × String × String) := ["]
+    L.append(",\n".join("  (%s, %s, %s, %s)" % tuple(lean_str(x) for x in r) for r in report) + "]")
+    L += ["", "def scannedModules : List String := " + lean_strs(SCANNED), "", "end Gen", ""]
+    return "\n".join(L)
+
+
 # ----------------------------------------------------------------------------------------------------------
 # Lean emission
 # ----------------------------------------------------------------------------------------------------------
@@ -816,6 +918,8 @@ def main():
         files["PyTables.lean"] = "\n".join(U)
         files["Static.lean"] = emit_static(st)
         files["Schema.lean"] = emit_schema(st)
+        ws = write_set_report()
+        files["WriteSet.lean"] = emit_writeset(ws)
         for i, t in enumerate(tabs):
             files["LexCfg%d.lean" % i] = emit_cfg("Cfg%d" % i, t, ops, params, statuses)
         M = [HEADER, "import MsqModel.Gen.LexCfg%d" % shipped_idx, "namespace Gen", "open Lex", "",
@@ -835,7 +939,7 @@ def main():
         gen = {"statuses": base["status"], "ops": ops, "params": params, "mybatis": mb_rules, "shippedIdx": shipped_idx,
                "AMTMark": base["AMTMark"], "wordMarks": base["wordMarks"], "END": base["END_map"],
                "tables": [{k: t[k] for k in ("rows", "atEndExplicit", "dflt")} for t in tabs],
-               "upper_exceptions": len(upper), "static": st}
+               "upper_exceptions": len(upper), "static": st, "write_set": ws}
         write_if_changed(os.path.join(BUILD, "gen.json"), json.dumps(gen, sort_keys=True))
     except Refuse as e:
         status["refused"].append(str(e))
